@@ -43,8 +43,8 @@ def make_spec(seed, index, **opts):
 
 def tree_shards(n_trees, per_shard, extra=None):
     """[-1 (corpus), 0..n_trees-1] split into shards."""
-    idx = [-1] + list(range(n_trees))
-    out = []
+    idx = list(range(n_trees))
+    out = [dict({"trees": [-1]}, **(extra or {}))]  # the hand-written tree gets a shard of its own (it is given more values)
     for i in range(0, len(idx), per_shard):
         d = {"trees": idx[i:i + per_shard]}
         if extra:
